@@ -105,14 +105,13 @@ CMR_ERROR CMRequimodularTest(CMR* cmr, CMR_INTMAT* matrix, bool* pisEquimodular,
 
     int diagonalElement = transformed_matrix->entryValues[transformed_matrix->rowSlice[row]];
     assert(diagonalElement > 0);
-    int64_t old = gcdDet;
-    gcdDet *= diagonalElement;
-    if (gcdDet / diagonalElement != old)
+    if (gcdDet > INT64_MAX / diagonalElement)
     {
-      /* We caught an overflow. */
+      /* The product would overflow. */
       result = CMR_ERROR_OVERFLOW;
       goto cleanup;
     }
+    gcdDet *= diagonalElement;
   }
 
   /* Test for a particular determinant gcd if requested. */
